@@ -320,6 +320,11 @@ class Normaliser:
         return Rat(p_atom(f"pow({base},{exp})"))
 
     def _call(self, e: ast.Call) -> Rat:
+        # `x.transpose(1, 2, 0)` / `x.transpose((1, 2, 0))` is `np.transpose(x, (1, 2, 0))`
+        if isinstance(e.func, ast.Attribute) and e.func.attr == "transpose" and e.args and not e.keywords and not (dotted(e.func) or "").startswith(("np.", "numpy.")):
+            axes = e.args[0] if len(e.args) == 1 and isinstance(e.args[0], (ast.Tuple, ast.List)) else ast.Tuple(elts=list(e.args), ctx=ast.Load())
+            e = ast.copy_location(ast.Call(func=ast.Attribute(value=ast.Name(id="numpy", ctx=ast.Load()), attr="transpose", ctx=ast.Load()), args=[e.func.value, axes], keywords=[]), e)
+            ast.fix_missing_locations(e)
         if self.inliner is not None:
             inl = self.inliner(self, e)
             if inl is not None:
